@@ -122,7 +122,7 @@ fn add_state(b: &mut AutomatonBuilder<usize>, k: usize, shape: usize, q: usize, 
     }
 }
 
-fn build_dfa(n: usize, k: usize, delta: &[usize], fin: &[bool], shape: usize) -> Result<Automaton, aws_smt_strings::errors::Error> {
+fn build_dfa(n: usize, k: usize, delta: &[usize], fin: &[bool], shape: usize, unchecked: bool) -> Result<Automaton, aws_smt_strings::errors::Error> {
     let mut b = AutomatonBuilder::new(&0usize);
     for q in 0..n {
         add_state(&mut b, k, shape, q, &delta[q * k..(q + 1) * k]);
@@ -130,7 +130,17 @@ fn build_dfa(n: usize, k: usize, delta: &[usize], fin: &[bool], shape: usize) ->
             b.mark_final(&q);
         }
     }
-    b.build()
+    finish_build(b, unchecked)
+}
+
+/// `build()`, or `build_unchecked()` for the checks of C04/C14 when `build()` refuses a specification that is
+/// complete and deterministic by construction (that refusal is C13's business; C04/C14 still get their automaton)
+fn finish_build(mut b: AutomatonBuilder<usize>, unchecked: bool) -> Result<Automaton, aws_smt_strings::errors::Error> {
+    if unchecked {
+        Ok(b.build_unchecked())
+    } else {
+        b.build()
+    }
 }
 
 /// the automaton's own transition table over all probe characters, read through next()
@@ -292,32 +302,40 @@ fn dfa_case(kind: DKind, n: usize, k: usize, delta: &[usize], fin: &[bool], shap
     let chars = all_chars_of(k);
     let lay = layout(k);
     let spec = |q: usize, c: u32| delta[q * k + lay.iter().position(|l| l.contains(&c)).unwrap()];
-    automaton_case(kind, n, &|| build_dfa(n, k, delta, fin, shape), &chars, &spec, fin, with_ops, rep)
+    automaton_case(kind, n, &|unchecked| build_dfa(n, k, delta, fin, shape, unchecked), &chars, &spec, fin, with_ops, rep)
 }
 
 /// the checks of one property on one specified automaton, given as a function that builds it afresh
-fn automaton_case(kind: DKind, n: usize, build: &dyn Fn() -> Result<Automaton, aws_smt_strings::errors::Error>, chars: &[u32], spec: &dyn Fn(usize, u32) -> usize, fin: &[bool], with_ops: bool, rep: &mut Report) -> Vec<String> {
+fn automaton_case(kind: DKind, n: usize, build: &dyn Fn(bool) -> Result<Automaton, aws_smt_strings::errors::Error>, chars: &[u32], spec: &dyn Fn(usize, u32) -> usize, fin: &[bool], with_ops: bool, rep: &mut Report) -> Vec<String> {
     let mut msgs = vec![];
     let chars = chars.to_vec();
-    let built = guarded(|| build());
+    let built = guarded(|| build(false));
+    let mut unchecked = false;
     let a = match built {
-        Err(e) => {
-            if kind == DKind::C13 {
-                msgs.push(format!("build() {}", e));
-            } else {
-                rep.inc("build_failed");
-            }
-            return msgs;
-        }
-        Ok(Err(e)) => {
-            if kind == DKind::C13 {
-                msgs.push(format!("build() rejected a complete, conflict-free specification (defaults only where needed) with {:?}", e));
-            } else {
-                rep.inc("build_failed");
-            }
-            return msgs;
-        }
         Ok(Ok(a)) => a,
+        other => {
+            if kind == DKind::C13 {
+                match other {
+                    Err(e) => msgs.push(format!("build() {}", e)),
+                    Ok(Err(e)) => msgs.push(format!("build() rejected a complete, conflict-free specification (defaults only where needed) with {:?}", e)),
+                    _ => {}
+                }
+                return msgs;
+            }
+            // C04 / C14 are about what happens to an automaton, not about build(): take the unchecked route
+            rep.inc("build_failed");
+            unchecked = true;
+            match guarded(|| build(true)) {
+                Ok(Ok(a)) => {
+                    rep.inc("built_unchecked_instead");
+                    a
+                }
+                _ => {
+                    rep.inc("no_automaton_obtained");
+                    return msgs;
+                }
+            }
+        }
     };
     match kind {
         DKind::C13 => {
@@ -342,17 +360,23 @@ fn automaton_case(kind: DKind, n: usize, build: &dyn Fn() -> Result<Automaton, a
         }
         DKind::C04 => {
             if n >= 2 && with_ops {
-                op_sequences(&|| build().ok(), &chars, rep, &mut msgs);
+                op_sequences(&|| build(unchecked).ok(), &chars, rep, &mut msgs);
             }
             let r = guarded(|| {
                 let mut msgs = vec![];
                 let t = read_table(&a, &chars);
-                let expected = t.classes();
+                // every residual language present among the reachable states must survive, none may appear twice: with
+                // unreachable states the statement leaves open whether their classes are kept
+                let (lo, hi) = (t.pruned().classes(), t.classes());
                 let mut m = a;
                 m.minimize();
                 let (pairs, steps, bad, _) = t.compare(&m);
-                if m.num_states() != expected {
-                    msgs.push(format!("minimize: {} states, but the {} states fall into {} classes of equal residual language", m.num_states(), t.n, expected));
+                if m.num_states() < lo || m.num_states() > hi {
+                    if lo == hi {
+                        msgs.push(format!("minimize: {} states, but the {} states fall into {} classes of equal residual language", m.num_states(), t.n, hi));
+                    } else {
+                        msgs.push(format!("minimize: {} states, but the {} states fall into {} classes of equal residual language ({} among the reachable ones)", m.num_states(), t.n, hi, lo));
+                    }
                 }
                 if let Some(w) = bad {
                     msgs.push(format!("minimize changed the language: the automata disagree on {:?}", w));
@@ -381,7 +405,7 @@ fn automaton_case(kind: DKind, n: usize, build: &dyn Fn() -> Result<Automaton, a
         }
         DKind::C14 => {
             if n >= 2 && with_ops {
-                op_sequences(&|| build().ok(), &chars, rep, &mut msgs);
+                op_sequences(&|| build(unchecked).ok(), &chars, rep, &mut msgs);
             }
             let r = guarded(|| {
                 let mut msgs = vec![];
@@ -441,16 +465,24 @@ fn op_sequences(build: &dyn Fn() -> Option<Automaton>, chars: &[u32], rep: &mut 
             let mut model = read_table(&a, chars);
             let (mut pairs, mut steps) = (0u64, 0u64);
             for (k, op) in seq.chars().enumerate() {
+                let (lo, hi);
                 if op == 'm' {
                     a.minimize();
-                    model = model.quotient();
+                    lo = model.pruned().classes();
+                    hi = model.classes();
                 } else {
                     a.remove_unreachable_states();
-                    model = model.pruned();
+                    lo = model.pruned().n;
+                    hi = lo;
                 }
                 let what = format!("after {} (step {} of sequence {})", if op == 'm' { "minimize" } else { "remove_unreachable_states" }, k + 1, seq);
-                if a.num_states() != model.n {
-                    msgs.push(format!("{}: {} states, expected {}", what, a.num_states(), model.n));
+                if a.num_states() < lo || a.num_states() > hi {
+                    msgs.push(format!("{}: {} states, expected {}", what, a.num_states(), if lo == hi { format!("{}", hi) } else { format!("{} to {}", lo, hi) }));
+                }
+                // the next step starts from what this step produced (its language is compared with the original below)
+                model = read_table(&a, chars);
+                if op == 'm' && model.classes() != model.n {
+                    msgs.push(format!("{}: {} states but only {} distinct residual languages", what, model.n, model.classes()));
                 }
                 let (p, st, bad, reached) = orig.compare(&a);
                 pairs += p;
@@ -620,7 +652,9 @@ impl Engine for DfaEngine {
                         // 4-state 2-letter ones, a stride of the larger ones; quick tier: two label shapes of the small automata
                         // and a stride of the 4-state ones
                         let with_ops = if ctx.tier == Tier::Thorough { n <= 3 || (n == 4 && k == 2) || code % 64 == 3 } else { (shape == 0 || shape == 6) && (n <= 3 || code % 16 == 3) };
+                        publish_case(|| json!({"__engine": "dfa", "engine": "dfa", "n": n, "k": k, "delta": delta, "final": fin, "shape": shape}));
                         let msgs = dfa_case(self.kind, n, k, &delta, &fin, shape, with_ops, rep);
+                        unpublish_case();
                         if !msgs.is_empty() {
                             rep.violation(self.kind.id(), "dfa", json!({"engine": "dfa", "n": n, "k": k, "delta": delta, "final": fin, "shape": shape}), format!("DFA n={} k={} delta={:?} final={:?} shape={}: {}", n, k, delta, fin, shape, msgs.join(" | ")));
                         }
@@ -651,7 +685,8 @@ impl Engine for DfaEngine {
         }
     }
     fn hang_is_violation(&self, _p: &str) -> bool {
-        self.kind == DKind::C04
+        // build, minimize, remove_unreachable_states, compile_successors: not returning is not "producing"
+        true
     }
     fn max_group(&self, _ctx: &Ctx, _batch: usize) -> usize {
         // a batch is up to 1024 transition tables x all final sets x shapes
@@ -740,6 +775,9 @@ fn bld_case(init: usize, calls: &[Call], rep: &mut Report) -> Option<String> {
     };
     let mut trans: HashMap<usize, Vec<(usize, usize)>> = HashMap::new();
     let mut dflt: HashMap<usize, usize> = HashMap::new();
+    // every value a default was declared with: when a state's default is declared twice with different targets the
+    // statement's "the declared default" does not say which one counts, so either is accepted
+    let mut dflt_all: HashMap<usize, Vec<usize>> = HashMap::new();
     let mut finals: HashSet<usize> = HashSet::new();
     for c in calls {
         match c {
@@ -752,6 +790,10 @@ fn bld_case(init: usize, calls: &[Call], rep: &mut Report) -> Option<String> {
                 mention(&mut keys, *q);
                 mention(&mut keys, *t);
                 dflt.insert(*q, *t);
+                let e = dflt_all.entry(*q).or_default();
+                if !e.contains(t) {
+                    e.push(*t);
+                }
             }
             Call::Final(q) => {
                 mention(&mut keys, *q);
@@ -792,6 +834,11 @@ fn bld_case(init: usize, calls: &[Call], rep: &mut Report) -> Option<String> {
     let must_err = conflict || uncovered;
     let must_ok = !conflict && !uncovered && !needless;
     // ---- real code ----
+    publish_case(|| {
+        let mut j = calls_to_json(init, calls);
+        j["__engine"] = json!("bld");
+        j
+    });
     let res = guarded(|| {
         let mut b = AutomatonBuilder::new(&init);
         for c in calls {
@@ -815,6 +862,7 @@ fn bld_case(init: usize, calls: &[Call], rep: &mut Report) -> Option<String> {
         }
         b.build()
     });
+    unpublish_case();
     let class = format!("conflict={} uncovered={} overlap={} needless_default={}", conflict as u8, uncovered as u8, overlap as u8, needless as u8);
     let res = match res {
         Err(e) => return Some(format!("{}: build() {}", show_calls(init, calls), e)),
@@ -842,8 +890,38 @@ fn bld_case(init: usize, calls: &[Call], rep: &mut Report) -> Option<String> {
             }
             let fin: Vec<bool> = keys.iter().map(|q| finals.contains(q)).collect();
             let idx_of = |key: usize| keys.iter().position(|&x| x == key).unwrap();
-            let spec = |qi: usize, c: u32| idx_of(delta[&(keys[qi], block_of(c))]);
-            let r = guarded(|| find_renaming(&a, n, &spec, &PROBES, &fin));
+            // alternative readings of re-declared defaults (the last declaration first)
+            let mut deltas: Vec<HashMap<(usize, usize), usize>> = vec![delta.clone()];
+            for (&q, vals) in dflt_all.iter() {
+                if vals.len() < 2 {
+                    continue;
+                }
+                let mut more = vec![];
+                for d in &deltas {
+                    for &v in vals {
+                        let mut d2 = d.clone();
+                        for bk in 0..3 {
+                            let covered = trans.get(&q).map(|tr| tr.iter().any(|&(l, _)| LABELS[l].0 <= bk && bk <= LABELS[l].1)).unwrap_or(false);
+                            if !covered {
+                                d2.insert((q, bk), v);
+                            }
+                        }
+                        if !deltas.contains(&d2) && !more.contains(&d2) {
+                            more.push(d2);
+                        }
+                    }
+                }
+                deltas.extend(more);
+            }
+            let r = guarded(|| {
+                for d in &deltas {
+                    let spec = |qi: usize, c: u32| idx_of(d[&(keys[qi], block_of(c))]);
+                    if let Some(pi) = find_renaming(&a, n, &spec, &PROBES, &fin) {
+                        return Some(pi);
+                    }
+                }
+                None
+            });
             rep.add("states", n as u64);
             rep.add("transitions", (n * PROBES.len()) as u64);
             rep.add("impl_traces", (n * PROBES.len()) as u64);
@@ -1076,7 +1154,7 @@ impl Engine for BldEngine {
                 }
             }
         }
-        // a different initial key, and keys that are not 0..n
+        // a different initial key, and keys that are not 0..n (sparse, huge, in descending order of first mention)
         if batch == 0 {
             for sp0 in specs.iter().step_by(7) {
                 let mut calls = vec![];
@@ -1085,6 +1163,25 @@ impl Engine for BldEngine {
                 rep.inc("evaluations");
                 if let Some(m) = bld_case(1, &calls, rep) {
                     rep.violation("C13", "bld", calls_to_json(1, &calls), m);
+                }
+                for keymap in [[usize::MAX, 7usize, 1_000_003], [42, 41, 40], [1, 0, usize::MAX - 1]] {
+                    let rn = |q: usize| keymap[q % 3];
+                    let c2: Vec<Call> = calls
+                        .iter()
+                        .map(|c| match c {
+                            Call::Add(q, l, t) => Call::Add(rn(*q), *l, rn(*t)),
+                            Call::Default(q, t) => Call::Default(rn(*q), rn(*t)),
+                            Call::Final(q) => Call::Final(rn(*q)),
+                            other => other.clone(),
+                        })
+                        .collect();
+                    for init in [rn(1), rn(0)] {
+                        rep.inc("evaluations");
+                        rep.inc("sparse_keys");
+                        if let Some(m) = bld_case(init, &c2, rep) {
+                            rep.violation("C13", "bld", calls_to_json(init, &c2), m);
+                        }
+                    }
                 }
             }
         }
@@ -1164,7 +1261,7 @@ struct FanCase {
     fan_last: bool,
 }
 
-fn fan_build(c: &FanCase) -> Result<Automaton, aws_smt_strings::errors::Error> {
+fn fan_build(c: &FanCase, unchecked: bool) -> Result<Automaton, aws_smt_strings::errors::Error> {
     let letters = fan_letters();
     let mut b = AutomatonBuilder::new(&0usize);
     let mut order: Vec<usize> = (0..c.n).collect();
@@ -1195,7 +1292,7 @@ fn fan_build(c: &FanCase) -> Result<Automaton, aws_smt_strings::errors::Error> {
             b.mark_final(&q);
         }
     }
-    b.build()
+    finish_build(b, unchecked)
 }
 
 fn fan_spec(c: &FanCase, q: usize, ch: u32) -> usize {
@@ -1296,7 +1393,13 @@ impl Engine for FanEngine {
             if self.kind == DKind::C13 {
                 rep.inc("nontrivial");
             }
-            let msgs = automaton_case(self.kind, c.n, &|| fan_build(c), &chars, &|q, ch| fan_spec(c, q, ch), &c.fin, true, rep);
+            publish_case(|| {
+                let mut j = fan_json(c);
+                j["__engine"] = json!("fan");
+                j
+            });
+            let msgs = automaton_case(self.kind, c.n, &|unchecked| fan_build(c, unchecked), &chars, &|q, ch| fan_spec(c, q, ch), &c.fin, true, rep);
+            unpublish_case();
             if !msgs.is_empty() {
                 rep.violation(self.kind.id(), "fan", fan_json(c), format!("fan automaton {:?}: {}", c, msgs.join(" | ")));
             }
@@ -1311,13 +1414,14 @@ impl Engine for FanEngine {
         }
         rep.inc("evaluations");
         let chars = fan_chars();
-        let msgs = automaton_case(self.kind, c.n, &|| fan_build(&c), &chars, &|q, ch| fan_spec(&c, q, ch), &c.fin, true, rep);
+        let msgs = automaton_case(self.kind, c.n, &|unchecked| fan_build(&c, unchecked), &chars, &|q, ch| fan_spec(&c, q, ch), &c.fin, true, rep);
         if !msgs.is_empty() {
             rep.violation(self.kind.id(), "fan", v.clone(), msgs.join(" | "));
         }
     }
     fn hang_is_violation(&self, _p: &str) -> bool {
-        self.kind == DKind::C04
+        // build, minimize, remove_unreachable_states, compile_successors: not returning is not "producing"
+        true
     }
 }
 
@@ -1368,7 +1472,7 @@ fn ring_final(c: &RingCase, q: usize) -> bool {
         q < c.d
     }
 }
-fn ring_build(c: &RingCase) -> Result<Automaton, aws_smt_strings::errors::Error> {
+fn ring_build(c: &RingCase, unchecked: bool) -> Result<Automaton, aws_smt_strings::errors::Error> {
     let mut b = AutomatonBuilder::new(&0usize);
     let total = c.n + c.extra;
     for q in 0..total {
@@ -1379,7 +1483,7 @@ fn ring_build(c: &RingCase) -> Result<Automaton, aws_smt_strings::errors::Error>
             b.mark_final(&q);
         }
     }
-    b.build()
+    finish_build(b, unchecked)
 }
 fn ring_cases(tier: Tier) -> Vec<RingCase> {
     let ns: Vec<usize> = if tier == Tier::Thorough { vec![17, 18, 19, 24, 31, 32, 33, 34, 40, 48, 63, 64, 65, 100, 128, 200] } else { vec![17, 18, 24, 33, 34, 40, 64, 65, 100] };
@@ -1465,7 +1569,9 @@ impl Engine for RingEngine {
             let spec = |q: usize, ch: u32| ring_delta(c, q, lay.iter().position(|l| l.contains(&ch)).unwrap());
             // renaming search is only feasible for small automata: C13 on rings checks acceptance and delta through the
             // identity numbering (states are mentioned in order 0..n)
-            let msgs = if self.kind == DKind::C13 { ring_c13(c, &chars, &spec, &fin) } else { automaton_case(self.kind, total, &|| ring_build(c), &chars, &spec, &fin, true, rep) };
+            publish_case(|| json!({"__engine": "ring", "engine": "ring", "n": c.n, "bm": c.bm, "bc": c.bc, "other": c.other, "d": c.d, "extra": c.extra, "fkind": c.fkind}));
+            let msgs = if self.kind == DKind::C13 { ring_c13(c, &chars, &spec, &fin) } else { automaton_case(self.kind, total, &|unchecked| ring_build(c, unchecked), &chars, &spec, &fin, true, rep) };
+            unpublish_case();
             if !msgs.is_empty() {
                 rep.violation(self.kind.id(), "ring", json!({"engine": "ring", "n": c.n, "bm": c.bm, "bc": c.bc, "other": c.other, "d": c.d, "extra": c.extra, "fkind": c.fkind}), format!("ring automaton {:?}: {}", c, msgs.join(" | ")));
             }
@@ -1483,13 +1589,14 @@ impl Engine for RingEngine {
         let total = c.n + c.extra;
         let fin: Vec<bool> = (0..total).map(|q| ring_final(&c, q)).collect();
         let spec = |q: usize, ch: u32| ring_delta(&c, q, lay.iter().position(|l| l.contains(&ch)).unwrap());
-        let msgs = if self.kind == DKind::C13 { ring_c13(&c, &chars, &spec, &fin) } else { automaton_case(self.kind, total, &|| ring_build(&c), &chars, &spec, &fin, true, rep) };
+        let msgs = if self.kind == DKind::C13 { ring_c13(&c, &chars, &spec, &fin) } else { automaton_case(self.kind, total, &|unchecked| ring_build(&c, unchecked), &chars, &spec, &fin, true, rep) };
         if !msgs.is_empty() {
             rep.violation(self.kind.id(), "ring", v.clone(), msgs.join(" | "));
         }
     }
     fn hang_is_violation(&self, _p: &str) -> bool {
-        self.kind == DKind::C04
+        // build, minimize, remove_unreachable_states, compile_successors: not returning is not "producing"
+        true
     }
 }
 
@@ -1497,7 +1604,7 @@ impl Engine for RingEngine {
 /// forced by walking from the initial state (unreachable states are matched by behaviour)
 fn ring_c13(c: &RingCase, chars: &[u32], spec: &dyn Fn(usize, u32) -> usize, fin: &[bool]) -> Vec<String> {
     let mut msgs = vec![];
-    let a = match guarded(|| ring_build(c)) {
+    let a = match guarded(|| ring_build(c, false)) {
         Err(e) => return vec![format!("build() {}", e)],
         Ok(Err(e)) => return vec![format!("build() rejected a complete conflict-free specification with {:?}", e)],
         Ok(Ok(a)) => a,
